@@ -136,7 +136,7 @@ def check_orders(ctx, fparams, steps):
 def run_orders(ctx):
     rnd = ctx.rng('orders')
     U = [p for p in sigs.U(('a', 'b', 'c'), 3, stars=sigs.STARS2[:1]) if any(x[1] == PK for x in p)]
-    n = {'quick': 250, 'thorough': 6000}[ctx.tier] // ctx.nshards
+    n = {'quick': 400, 'thorough': 30000}[ctx.tier] // ctx.nshards
     for _ in range(n):
         if ctx.out_of_time('modifier orders'):
             break
@@ -464,7 +464,7 @@ def run_histories(ctx):
             idx += 1
             if ctx.mine(idx):
                 run_history(ctx, kind, h)
-    n = {'quick': 500, 'thorough': 20000}[ctx.tier] // ctx.nshards
+    n = {'quick': 1000, 'thorough': 100000}[ctx.tier] // ctx.nshards
     for _ in range(n):
         if ctx.out_of_time('random histories'):
             break
